@@ -137,6 +137,10 @@ def prop_tree(case, model_cls=SIRModel, name='Gillespie_SIR', walk=None, max_dep
         classes.append('zero-weight-edges')
     if case['gc'].get('selfloops'):
         classes.append('self-loops')
+    if case['gc'].get('zero_node_weights') and case.get('nw') is not None:
+        classes.append('zero-weight-nodes')
+    if 0 < max(case['tau'], case['gamma']) < 1e-6:
+        classes.append('tiny-rates')
     res = Result(fails, nontrivial=flags['nt'], classes=classes)
     res.stats = stats
     return res
@@ -231,9 +235,16 @@ def walk_case(draw, sis=False, nmax=6):
         lab = list(gc['ew'])[0]
         gc['ew'][lab] = [0.0 if draw(st.integers(0, 2)) == 0 else w for w in gc['ew'][lab]]     # zero-weight candidates
         gc['zero_weights'] = True
+    if gc['nw'] and draw(st.integers(0, 3)) == 0:
+        lab = list(gc['nw'])[0]
+        gc['nw'][lab] = [0.0 if draw(st.integers(0, 2)) == 0 else w for w in gc['nw'][lab]]     # nodes that never recover
+        gc['zero_node_weights'] = True
     I0, R0 = draw(gen.initial_sets(gc['nodes'], allow_R=not sis))
     tau = draw(gen.rates)
     gamma = draw(gen.rates)
+    if draw(st.integers(0, 7)) == 0:
+        # rates of order 1e-10 .. 1e-9: the jump chain depends on tau/gamma only; absolute tolerances must not swallow them
+        tau, gamma = tau * 2.0 ** -31, gamma * 2.0 ** -31
     tmin = draw(st.sampled_from([0, 0, -1.5, 2, 2.5]))
     tmax = draw(st.sampled_from(['inf', 'inf', tmin + 1, tmin + 2.25, tmin + 4])) if not sis else \
         draw(st.sampled_from([tmin + 1, tmin + 2.25, tmin + 4, tmin + 100]))
@@ -329,12 +340,21 @@ def behavioural_weighted(ctx, sub, quick):
                   'ew': {'w': gen.det_weights(len(edges), shift)}, 'nw': {'rw': gen.det_weights(n, shift + 2)}}
             cases.append({'gc': gc, 'tau': 1.0, 'gamma': 0.7, 'ew': 'w', 'nw': 'rw', 'I0': [shift % n], 'R0': [],
                           'tmin': 0, 'tmax': 'inf'})
+        for z in range(n if not quick else 2):       # zero weights: a node that never recovers, an edge that never transmits
+            nw = gen.det_weights(n, 1)
+            nw[(z + 1) % n] = 0.0
+            ew = gen.det_weights(len(edges), 3)
+            ew[z % len(edges)] = 0.0
+            gc = {'nodes': list(range(n)), 'edges': [list(e) for e in edges], 'ew': {'': ew}, 'nw': {'rw': nw}}
+            cases.append({'gc': gc, 'tau': 1.0, 'gamma': 0.7, 'ew': '', 'nw': 'rw', 'I0': [z], 'R0': [], 'tmin': 0, 'tmax': 'inf'})
     run_exhaustive(ctx, sub, cases, 'eonverif.props.c01', 'tree_prop_weighted')
 
 
 def replay(ctx, sub, case):
     if sub.startswith('mc'):
         return mc.replay_mc(ctx, case, 64000)
+    if sub == 'tree-weighted':
+        return tree_prop_weighted(case).failures
     if 'walk' in case and sub.startswith('walk'):
         return prop_walk(case).failures
     return prop_tree(case, SIRModel, 'Gillespie_SIR' if not sub.startswith('behav') else 'weighted-Gillespie_SIR').failures
@@ -355,6 +375,8 @@ def run(ctx):
     if not only or 'tree' in only:
         tot = run_exhaustive(ctx, 'tree', exhaustive_cases(3 if quick else 4), 'eonverif.props.c01', 'tree_prop')
         ctx.exhaustive = False
+    if not only or 'tree-weighted' in only:
+        behavioural_weighted(ctx, 'tree-weighted', quick)        # many distinct weights, zero-weight nodes and edges
     if not only or 'walk' in only:
         run_hypothesis(ctx, 'walk', walk_case(), prop_walk, 800 if quick else 5000)
     if not only or 'mc' in only:
